@@ -11,7 +11,7 @@ import hashlib
 
 from trie.utils.db import ScratchDB
 
-from ..core import HarnessError, Stats, Violation, hx, unhx
+from ..core import HarnessError, Stats, Violation, deep, hx, unhx
 from ..simdb import SimDB
 
 ID = "C17"
@@ -354,7 +354,7 @@ def generate(rng):
         if rng.random() < 0.5:
             prefix += [c for c in gen_ops(rng, keys, vals, 2) if c["op"] in ("read", "contains", "other")]
     dd = int(rng.random() < 0.5)
-    ops = gen_ops(rng, keys, vals, rng.choice([0, 1, 2, 3, 4, 6, 8, 12]))
+    ops = gen_ops(rng, keys, vals, rng.choice(deep([0, 1, 2, 3, 4, 6, 8, 12], [1, 2, 4, 8, 12, 20, 30])))
     suffix = [{"op": "settle", "keys": [hx(k) for k in keys], "dd": int(rng.random() < 0.5)}]
     suffix += [c for c in gen_ops(rng, keys, vals, 3) if c["op"] in ("read", "contains")]
     return {"cfg": {"initial": initial}, "prefix": prefix, "dd": dd, "ops": ops, "suffix": suffix}
